@@ -72,6 +72,22 @@ theorem itype_day_iff (i : Int) : itype i = .day ↔ i < 300000 := by
   · simp; omega
   · split <;> simp <;> omega
 
+/-- both shapes of the month slot rule give the quotient when the offset lies inside one day -/
+theorem monthSlot_eq (q : Bool) (x : Nat) (hx : x < 86400000) (ts base : Int) (iv : Nat)
+    (h : ts - base = (x : Int)) : monthSlot q ts base (iv : Int) = ((x / iv : Nat) : Int) := by
+  have hd : oneDay = ((86400000 : Nat) : Int) := rfl
+  cases q
+  · simp only [monthSlot, h, hd, Bool.false_eq_true, if_false]
+    rw [tmod_cast, Nat.mod_eq_of_lt hx, tdiv_cast]
+  · simp only [monthSlot, h, if_true]
+    rw [tdiv_cast]
+
+/-- the two shapes agree on every timestamp of a month-type family (UTC: a family is one day) -/
+theorem month_slot_variants_agree (ts base iv : Int) (h0 : 0 ≤ ts - base) (h1 : ts - base < oneDay) :
+    monthSlot true ts base iv = monthSlot false ts base iv := by
+  simp only [monthSlot, Bool.false_eq_true, if_false, if_true]
+  rw [Int.tmod_eq_emod_of_nonneg h0, Int.emod_eq_of_lt h0 h1]
+
 /-- the interval guard: `src ∣ tgt`, `tgt` divides or is a multiple of the source family length
 `F`, and the ratio fits the `uint16` the code stores it in -/
 structure Guard (src tgt F : Nat) : Prop where
@@ -140,12 +156,12 @@ theorem place_month (tF : Int) (o s src tgt F : Nat) (g : Guard src tgt F)
   have hd : oneDay = ((86400000 : Nat) : Int) := rfl
   have hc : r.calcSlot (r.getTimestamp s) = (((o + s * src) / tgt : Nat) : Int) := by
     rw [R.calcSlot, show itype r.target = .month from hty]
-    show u16 (Int.tdiv (Int.tmod (r.getTimestamp s - tF) oneDay) (tgt : Int)) = _
-    rw [e1, hd, tmod_cast, Nat.mod_eq_of_lt hday, tdiv_cast, u16_of_lt _ hb]
+    show u16 (monthSlot _ (r.getTimestamp s) tF (tgt : Int)) = _
+    rw [monthSlot_eq _ (o + s * src) hday _ _ _ e1, u16_of_lt _ hb]
   have hbs : r.baseSlot = ((o / tgt : Nat) : Int) := by
     rw [R.baseSlot, R.calcSlot, show itype r.target = .month from hty]
-    show u16 (Int.tdiv (Int.tmod (r.sourceFTime - tF) oneDay) (tgt : Int)) = _
-    rw [e2, hd, tmod_cast, Nat.mod_eq_of_lt (by omega), tdiv_cast, u16_of_lt _ hb0]
+    show u16 (monthSlot _ r.sourceFTime tF (tgt : Int)) = _
+    rw [monthSlot_eq _ o (by omega) _ _ _ e2, u16_of_lt _ hb0]
   have hr : r.intervalRatio = ((tgt / src : Nat) : Int) := by
     simp only [R.intervalRatio, r]
     rw [tdiv_cast, u16_of_lt _ g.ratio]
@@ -181,8 +197,8 @@ theorem calcSlot_month_eq (tF : Int) (o s src tgt : Nat) (hty : itype (tgt : Int
     simp only [r, R.getTimestamp]; push_cast; ring
   have hd : oneDay = ((86400000 : Nat) : Int) := rfl
   rw [R.calcSlot, show itype r.target = .month from hty]
-  show u16 (Int.tdiv (Int.tmod (r.getTimestamp s - tF) oneDay) (tgt : Int)) = _
-  rw [e1, hd, tmod_cast, Nat.mod_eq_of_lt hday, tdiv_cast, u16_of_lt _ hb]
+  show u16 (monthSlot _ (r.getTimestamp s) tF (tgt : Int)) = _
+  rw [monthSlot_eq _ (o + s * src) hday _ _ _ e1, u16_of_lt _ hb]
 
 /-- the time window of a slot: `x / tgt` is the slot whose window contains offset `x` -/
 theorem slot_window (x tgt : Nat) (htgt : 0 < tgt) :
@@ -268,8 +284,8 @@ theorem place_month_nat (tF : Int) (o s src tgt F : Nat) (g : Guard src tgt F)
   have hd : oneDay = ((86400000 : Nat) : Int) := rfl
   refine ⟨?_, ?_, calcSlot_month_eq tF o s src tgt hty hday, hcore.symm⟩
   · rw [R.baseSlot, R.calcSlot, show itype r.target = .month from hty]
-    show u16 (Int.tdiv (Int.tmod (r.sourceFTime - tF) oneDay) (tgt : Int)) = _
-    rw [e2, hd, tmod_cast, Nat.mod_eq_of_lt (by omega), tdiv_cast, u16_of_lt _ hb0]
+    show u16 (monthSlot _ r.sourceFTime tF (tgt : Int)) = _
+    rw [monthSlot_eq _ o (by omega) _ _ _ e2, u16_of_lt _ hb0]
   · simp only [R.intervalRatio, r]
     rw [tdiv_cast, u16_of_lt _ g.ratio]
 
